@@ -228,7 +228,7 @@ fn nexts(log: &[Log]) -> usize {
 }
 
 impl World {
-    fn new(cap: usize, mode: Mode) -> World {
+    fn new(cap: usize, mode: Mode, short_shutdown_timeout: bool) -> World {
         let ctl = Rc::new(Ctl {
             cap,
             mode,
@@ -240,10 +240,13 @@ impl World {
             producer: RefCell::new(None),
         });
         let counts = Counts::default();
-        let (producer, writer) = BackgroundQueueBuilder::new()
-            .capacity(cap)
-            .metrics_recorder_local::<dyn metrics_024::Recorder, _>(counts.clone())
-            .__verif_build_unstarted::<ScriptStream, Tag>(ScriptStream(ctl.clone()));
+        let mut builder = BackgroundQueueBuilder::new().capacity(cap).metrics_recorder_local::<dyn metrics_024::Recorder, _>(counts.clone());
+        if short_shutdown_timeout {
+            // a configured drain time below one second (still ample: a drain pass of the model
+            // takes microseconds)
+            builder = builder.shutdown_timeout(std::time::Duration::from_millis(999));
+        }
+        let (producer, writer) = builder.__verif_build_unstarted::<ScriptStream, Tag>(ScriptStream(ctl.clone()));
         *ctl.producer.borrow_mut() = Some(producer);
         World { ctl, writer: Some(writer), counts, latched: None, reqs: Vec::new(), shut: false }
     }
@@ -461,8 +464,8 @@ struct St {
     v: Violations,
 }
 
-fn replay(cap: usize, mode: Mode, hist: &[Ev]) -> (World, Vec<(&'static str, String, String)>) {
-    let mut w = World::new(cap, mode);
+fn replay(cap: usize, mode: Mode, short: bool, hist: &[Ev]) -> (World, Vec<(&'static str, String, String)>) {
+    let mut w = World::new(cap, mode, short);
     let mut bad = Vec::new();
     for e in hist {
         let r = w.apply(*e);
@@ -473,19 +476,73 @@ fn replay(cap: usize, mode: Mode, hist: &[Ev]) -> (World, Vec<(&'static str, Str
     (w, bad)
 }
 
+/// A subscriber that accepts everything and records nothing.
+struct Quiet;
+impl tracing::Subscriber for Quiet {
+    fn enabled(&self, _: &tracing::Metadata<'_>) -> bool {
+        true
+    }
+    fn new_span(&self, _: &tracing::span::Attributes<'_>) -> tracing::span::Id {
+        tracing::span::Id::from_u64(1)
+    }
+    fn record(&self, _: &tracing::span::Id, _: &tracing::span::Record<'_>) {}
+    fn record_follows_from(&self, _: &tracing::span::Id, _: &tracing::span::Id) {}
+    fn event(&self, _: &tracing::Event<'_>) {}
+    fn enter(&self, _: &tracing::span::Id) {}
+    fn exit(&self, _: &tracing::span::Id) {}
+}
+
+/// C01, "nothing else reaches the stream except the in-band error report, written after a
+/// validation failure when NO tracing subscriber is installed": one fixed history in which the
+/// environment changes - a subscriber is installed after the queue's first validation failure.
+/// It runs before the parallel search because the report's rate limiter (1 s, real time in
+/// this build) is a process-wide static.
+fn subscriber_installed_later(rep: &mut Report) {
+    let reports = |w: &World| w.ctl.log.borrow().iter().filter(|l| **l == Log::Report).count();
+    let mut w = World::new(8, Mode::AllValidation, false);
+    w.apply(Ev::Push);
+    w.apply(Ev::DrainFar);
+    w.apply(Ev::Call(0));
+    let first = reports(&w);
+    std::thread::sleep(std::time::Duration::from_millis(1100)); // the limiter's interval
+    let installed = tracing::subscriber::set_default(Quiet);
+    w.apply(Ev::Push);
+    w.apply(Ev::DrainFar);
+    w.apply(Ev::Call(0));
+    let second = reports(&w) - first;
+    drop(installed);
+    rep.set("writer_model_subscriber_installed_later", json!({"reports_without_subscriber": first, "reports_after_a_subscriber_was_installed": second}));
+    if first != 1 {
+        // not the property's business how often it reports, but the scenario below needs the first report
+        rep.assume("the fixed history 'subscriber installed later' did not see exactly one report for the first validation failure");
+    }
+    if second != 0 {
+        rep.violation(
+            "writer:error-report-written-although-a-subscriber-is-installed",
+            format!("after a tracing subscriber was installed, {second} in-band error report(s) were still written to the stream"),
+            json!({"history": ["Push (rejected by validation, no subscriber): report entry written", "sleep 1.1 s", "install a tracing subscriber", "Push (rejected by validation)", "DrainFar"], "reports_after_install": second}),
+        );
+    }
+}
+
 pub fn run(prop: &'static str) {
     let mut rep = Report::from_args(prop, "model_checking");
+    if prop == "C01" && rep.replay.is_none() {
+        subscriber_installed_later(&mut rep);
+    }
     let depth: usize = rep.tier.pick(11, 13);
     let max_reqs = 2;
     let caps: Vec<usize> = vec![1, 2, 3, 33, 40];
     let modes = [Mode::AllOk, Mode::AllIo, Mode::AllValidation, Mode::Mixed];
-    let jobs: Vec<(usize, Mode)> = caps.iter().flat_map(|c| modes.iter().map(move |m| (*c, *m))).collect();
+    let mut jobs: Vec<(usize, Mode, bool)> = caps.iter().flat_map(|c| modes.iter().map(move |m| (*c, *m, false))).collect();
+    // builder option: a sub-second shutdown timeout (matters where one drain pass cannot empty the queue)
+    jobs.extend([33usize, 40].iter().flat_map(|c| modes.iter().map(move |m| (*c, *m, true))));
     let states = par::for_each_index(jobs.len() as u64, 1, St::default, |st, ji| {
-        let (cap, mode) = jobs[ji as usize];
+        let (cap, mode, short) = jobs[ji as usize];
         let mut seen: HashMap<_, usize> = HashMap::new();
         let mut stack: Vec<Vec<Ev>> = vec![vec![]];
         while let Some(hist) = stack.pop() {
-            let (mut w, _) = replay(cap, mode, &hist);
+            let (mut w, _) = replay(cap, mode, short, &hist);
             let remaining = depth - hist.len();
             let k = w.key();
             if let Some(r) = seen.get(&k) {
@@ -501,12 +558,12 @@ pub fn run(prop: &'static str) {
             for ev in w.enabled(max_reqs) {
                 let mut h2 = hist.clone();
                 h2.push(ev);
-                let (w2, bad) = replay(cap, mode, &h2);
+                let (w2, bad) = replay(cap, mode, short, &h2);
                 st.transitions += h2.len() as u64;
                 if !bad.is_empty() {
                     for (p, key, what) in bad {
                         if p == prop {
-                            st.v.add(key, format!("capacity {cap}, stream answers {mode:?}: {what} after {h2:?}"), json!({"capacity": cap, "stream_answers": format!("{mode:?}"), "history": h2.iter().map(|e| format!("{e:?}")).collect::<Vec<_>>()}));
+                            st.v.add(key, format!("capacity {cap}, stream answers {mode:?}{}: {what} after {h2:?}", if short { ", shutdown_timeout 999 ms" } else { "" }), json!({"capacity": cap, "stream_answers": format!("{mode:?}"), "shutdown_timeout_999ms": short, "history": h2.iter().map(|e| format!("{e:?}")).collect::<Vec<_>>()}));
                         }
                     }
                     continue;
